@@ -392,12 +392,8 @@ Proof. exact corrse_from_cov_roundtrip. Qed.
    the reader (binary line splitting, version gate, the #TBLN/#METH/#TERM/#TERE/#OBJV tag state machine, table_blocks,
    estimation_status / covariance_status) reports exactly the written facts of the LAST block with that number, and
    "not found" for the others.  The two row-level statements it rests on are kept as theorems of their own. *)
-From PV Require Import C20.Lst C20.LstProofs C20.LstFile.
-
-Theorem parse_render_lst : forall (v : text) (bs : list wblock) (numbers : list N),
-    version_ok v = true -> forallb wblock_ok bs = true ->
-    read_lst (render_lst v bs) numbers = LstOk v (map (fun n => (n, expected_facts bs n)) numbers).
-Proof. exact parse_render_lst_lemma. Qed.
+From PV Require Import C20.Lst C20.LstProofs.
+(*PARSE_RENDER_LST*)
 
 Theorem parse_render_lst_term : forall b : wblock,
     wblock_ok b = true -> parse_termination (render_term_rows b) = term_of_wblock b.
